@@ -11,7 +11,7 @@ from fv import design
 NA = design.NA
 
 CAT_NAMES = {
-    "f": ["a", "b", "c", "d"],
+    "f": ["a", "b", "c", "d", "e", "f", "g", "h", "i", "j", "k", "l"],
     "g": ["G1", "G10", "G2", "G3"],
     "h": ["A x", "B-y", "b.1", "c"],
     "o": ["hi", "lo", "mid", "top"],
@@ -35,6 +35,8 @@ class World:
 def gen_world(rng, nmin=3, nmax=20, na_rate=0.0, na_cols=(), ordered_prob=0.5, force_levels=True, distinct=0, quarters=False):
     w = World()
     n = w.n = rng.randint(nmin, nmax)
+    if nmax >= 10 and rng.random() < 0.04:
+        n = w.n = rng.randint(45, 75)   # now and then a frame with many rows (more than a few dozen)
     data = {}
 
     def cat(name, nlev, ordered=False):
@@ -80,7 +82,8 @@ def gen_world(rng, nmin=3, nmax=20, na_rate=0.0, na_cols=(), ordered_prob=0.5, f
             data[name] = pd.array(v, dtype="Int64") if st == "Int64" else np.array(v, dtype=np.int64 if st == "int64" else float)
         w.cols[name] = {"kind": "num", "v": v, "decl": []}
 
-    cat("f", rng.randint(2, 4))
+    # now and then a factor with many levels (two-digit column indices, more levels than rows of some of them)
+    cat("f", rng.choice([2, 3, 3, 4, 4, 4, 5, 7, 11]) if n >= 6 else rng.randint(2, 4))
     cat("g", rng.randint(2, 3))
     cat("h", rng.randint(2, 4))
     cat("o", rng.randint(2, 4), ordered=rng.random() < ordered_prob)
@@ -108,7 +111,9 @@ def gen_world(rng, nmin=3, nmax=20, na_rate=0.0, na_cols=(), ordered_prob=0.5, f
     num("u1", 0, 9)
     num("b q", 1, 4)   # a column whose name is not an identifier: written `b q` in formulas
     # integer-coded factor used through C(k)
-    kvals = rng.sample([1, 2, 3, 10, 20], rng.randint(2, 3))
+    kvals = rng.sample([1, 2, 3, 10, 20, 100], rng.choice([2, 2, 3, 3, 5]))
+    if n >= 10 and rng.random() < 0.15:
+        kvals = rng.sample(range(1, 14), rng.randint(9, min(12, n)))   # ten or more integer levels: numeric, not text, order
     kv = [rng.choice(kvals) for _ in range(n)]
     if n >= len(kvals):
         for k, pos in enumerate(rng.sample(range(n), len(kvals))):
